@@ -38,6 +38,7 @@ import KafkaVerif.Lemmas.Xerial
 import KafkaVerif.Lemmas.Pool
 import KafkaVerif.Lemmas.XerialReader
 import KafkaVerif.Lemmas.XerialIO
+import KafkaVerif.Lemmas.XerialCut
 import KafkaVerif.Gen.RecordConsts
 import KafkaVerif.Gen.CodecClose
 import KafkaVerif.Gen.CodecPools
@@ -244,6 +245,31 @@ theorem reads_reference_streams_any_blocks (c : Codec) (hg : Good c) (blocks : L
     Rep.startFramed _ _ rfl rfl (by simp [newReader])
   have := readAllWith_rep_any c hg ks _ [] blocks hks (by simpa using hlen) hsm hrep
   simpa using this
+
+/-- **streams that end early** (the source is cut, or fails, anywhere after the 16-byte header): whatever buffer sizes
+the consumer uses, everything the reader hands out before it reports the end or an error is a PREFIX of the payload —
+never other data.  (`readAllOut`: the bytes delivered until the first non-data answer.)  Proved by simulation
+(`Lemmas/XerialCut`): on `rest` and on `rest ++ t` the framed reader makes the same data steps. -/
+theorem truncated_stream_prefix (c : Codec) (hg : Good c) (blocks : List Bytes)
+    (hsm : ∀ b ∈ blocks, (c.enc b).length < 256 ^ 4)
+    (ks : List Nat) (hks : ∀ k ∈ ks, 1 ≤ k) (hlen : blocks.flatten.length < ks.length) (n : Nat) (hn : 16 ≤ n) :
+    readAllOut c (newReader ((frame (blocks.map c.enc)).take n)) ks <+: blocks.flatten := by
+  have hl : 16 ≤ (frame (blocks.map c.enc)).length := by
+    simp only [frame, List.length_append]
+    have : Spec.Xerial.header.length = 16 := by decide
+    omega
+  have hfr : Framed (newReader ((frame (blocks.map c.enc)).take n)) := by
+    refine .inl ⟨rfl, ?_, ?_⟩
+    · simp only [newReader, List.length_take]; omega
+    · simp only [newReader, List.take_take]
+      rw [show min 8 n = 8 from by omega]
+      exact header_take8 _
+  have hp := readAllOut_prefix c ((frame (blocks.map c.enc)).drop n) ks _ hfr
+  have he : ext (newReader ((frame (blocks.map c.enc)).take n)) ((frame (blocks.map c.enc)).drop n) =
+      newReader (frame (blocks.map c.enc)) := by
+    simp only [ext, newReader, List.take_append_drop]
+  rw [he, readAllOut_of_readAllWith c ks _ _ (reads_reference_streams_any_blocks c hg blocks hsm ks hks hlen)] at hp
+  exact hp
 
 /-- FULL round trip, framed: every non-empty payload, every split into Write calls, every sequence of Read
 buffer sizes: what the reader returns is the payload -/
